@@ -97,3 +97,24 @@ Theorem C14_chain_fuel_irrelevant :
     chain_poll depth fuel c = Ok res -> chain_poll depth' fuel' c = Ok res.
 Proof. exact chain_poll_fuel_mono. Qed.
 Print Assumptions C14_chain_fuel_irrelevant.
+
+(* ---------------- the leaves: the plain and the batched subscriber stream of an ObservableVector ----------------
+   (OVec.v) a poll that answers Pending registers the subscriber as waiting, and every published
+   message - as well as the drop of the vector - wakes every waiting subscriber.  Together with the
+   chain theorem: the waker of a Pending poll of any stack is woken by the next source update, by
+   the next limit/count change (the limit stream's own contract) and by the source being dropped. *)
+From EB Require Import OVec OVecFacts.
+
+Theorem C14_subscriber_stream_pending_is_woken :
+  forall (A : Type) (o : ovec A) (k : nat) o',
+    poll_sub o k = Ok (o', Pending) ->
+    (exists s', nth_error (subs o') k = Some (Some s') /\ sb_waiting s' = true) /\
+    (forall s', nth_error (subs o') k = Some (Some s') -> sb_waiting s' = true -> In k (snd (drop_vec o'))) /\
+    (forall s' m, 0 < rx_cnt o' -> nth_error (subs o') k = Some (Some s') -> sb_waiting s' = true ->
+                  In k (snd (send o' m))).
+Proof.
+  intros A o k o' H. split; [eapply pending_registers; eassumption|]. split.
+  - intros s' E W. eapply drop_vec_wakes; eassumption.
+  - intros s' m R E W. eapply send_wakes; eassumption.
+Qed.
+Print Assumptions C14_subscriber_stream_pending_is_woken.
